@@ -15,7 +15,11 @@ func run(c *core.Ctx) {
 	c.Assume("nil and empty collections are equal; an attribute with a design default that the service left unset is seen with the default; zero of a defaulted primitive (non-pointer field) may be seen as zero or default")
 	c.Assume("values the transport cannot carry are outside the alphabet: control characters in headers, RFC 6265-forbidden cookie characters")
 	c.Assume("the wire is in-memory: http.Request.Write -> http.ReadRequest -> goa muxer on an httptest recorder; the client decodes recorder.Result()")
-	for _, f := range []check.Family{families.ResultSingle(), families.ResultPair(c.Thorough()), families.ResultStatus(), families.Features()} {
+	fams := []check.Family{families.ResultSingle(), families.ResultPair(c.Thorough()), families.ResultStatus(), families.Features()}
+	if families.OnlyStreams(c) {
+		fams = nil
+	}
+	for _, f := range fams {
 		corpus, err := check.BuildFamily(c, f)
 		if err != nil {
 			c.HarnessError("%s: %v", f.Name, err)
@@ -25,6 +29,9 @@ func run(c *core.Ctx) {
 			c.HarnessError("%s: %v", f.Name, err)
 		}
 	}
+	// thorough tier: HTTP (WebSocket) streaming endpoints, streamed results and the final result
+	// of client-streaming endpoints (driver mode C03S, e2/drv/c03stream.go)
+	families.RunStreams(c, "C03S")
 }
 
 func main() { core.Main("C03", run, nil) }
